@@ -235,6 +235,9 @@ class FileDataPdu(AbstractPduBase):
         file_data_packet._pdu_header = PduHeader.unpack(data=data)
         file_data_packet._pdu_header.verify_length_and_checksum(data)
         current_idx = file_data_packet.pdu_header.header_len
+        end_of_data_idx = file_data_packet.packet_len
+        if file_data_packet.pdu_header.crc_flag == CrcFlag.WITH_CRC:
+            end_of_data_idx -= 2
         if file_data_packet.pdu_header.segment_metadata_flag:
             rec_cont_state = RecordContinuationState((data[current_idx] & 0xC0) >> 6)
             segment_metadata_len = data[current_idx] & 0x3F
@@ -257,8 +260,8 @@ class FileDataPdu(AbstractPduBase):
             data[current_idx : current_idx + struct_arg_tuple[1]],
         )[0]
         current_idx += struct_arg_tuple[1]
-        if current_idx < len(data):
-            file_data_packet._params.file_data = data[current_idx:]
+        if current_idx < end_of_data_idx:
+            file_data_packet._params.file_data = data[current_idx:end_of_data_idx]
         return file_data_packet
 
     @property
